@@ -21,6 +21,9 @@ use std::task::{Context, Poll};
 pub enum Transport {
     Unbounded,
     Bounded(usize),
+    /// unbounded, but every flush (on either side) needs two polls, as a socket with partial
+    /// writes does
+    SlowFlush,
 }
 
 #[derive(Clone, Debug)]
@@ -142,14 +145,20 @@ impl Bench {
                     let (a, b) = channel::bounded(n);
                     (Chan::B(a), Chan::B(b))
                 }
+                Transport::SlowFlush => {
+                    let (a, b) = channel::unbounded();
+                    (Chan::U(a), Chan::U(b))
+                }
             };
+            let slow_flush = cfg.transport == Transport::SlowFlush;
             // broker side
             let mut h = bh.clone();
             let l2 = log.clone();
             let ch: Rc<RefCell<Option<aldrin_broker::ConnectionHandle>>> = Rc::new(RefCell::new(None));
             let ch2 = ch.clone();
             conn_handles.push(ch);
-            let tb = Gate::new(tb, 20, cfg.broker_fault.clone(), log.clone(), clients.len() + i);
+            let mut tb = Gate::new(tb, 20, cfg.broker_fault.clone(), log.clone(), clients.len() + i);
+            tb.slow_flush = slow_flush;
             let ct = exec.spawn(format!("conn{i}"), async move {
                 let r = match h.connect(tb).await {
                     Ok(conn) => {
@@ -163,7 +172,8 @@ impl Bench {
             });
             conn_tasks.push(ct);
             // client side
-            let gate = Gate::new(tc, cfg.minor, cfg.fault.clone(), log.clone(), i);
+            let mut gate = Gate::new(tc, cfg.minor, cfg.fault.clone(), log.clone(), i);
+            gate.slow_flush = slow_flush;
             let (tx, rx) = oneshot::channel::<Handle>();
             handle_rx.push(rx);
             let l3 = log.clone();
